@@ -226,6 +226,7 @@ partial def jsonGoTy (j : Json) : Scan.GoTy :=
   | "arr" => .arr (elem ())
   | "map" => .map (elem ())
   | "time" => .time
+  | "text" => .text
   | "bytes" => .bytes
   | "strct" => .strct ((Diff.J.arr j "fields").map (fun f =>
       ({ json := Diff.J.str f "json", omitempty := Diff.J.bool f "omitempty", asString := Diff.J.bool f "asString" },
